@@ -1,7 +1,8 @@
 (* C06 -- Depression filling yields the minimal spill surface draining all cells (max_depth < 0). *)
 From Coq Require Import List Arith ZArith Bool.
 Import ListNotations.
-From PF Require Import Arr Flood FloodSpec.
+From PF Require Import Arr Codec Flood FloodSpec FloodTree.
+From PFG Require Import GenTables GenDrdc.
 Local Open Scope Z_scope.
 
 (* for every raster, connectivity, outlet mode: the filled elevation is never below the input; nodata cells
@@ -15,7 +16,39 @@ Theorem flood_basic : forall nrow ncol elv nodata conn mode pits,
 Proof. exact FloodSpec.flood_basic. Qed.
 Print Assumptions flood_basic.
 
+(* The derived directions form a forest rooted at the outlets.  `reach` (FloodTree.v) is the inductive statement
+   "j is a root, or j was reached from a cell p by an offset o of the chosen connectivity (o <> (0,0), inside the
+   raster), carries the D8 code of the upstream table at o, its filled level is not below p's, and p is reached";
+   roots are finished cells coded 0 (pits).  For every raster, connectivity and outlet mode (user outlet cells
+   must be valid cells): every finished valid cell is reached; hence following the codes from any such cell goes
+   through allowed neighbours only, never uphill on the filled surface, and ends in a pit. *)
+Theorem flood_forest : forall nrow ncol elv nodata conn mode pits,
+  (mode = 2 -> forall p, In p pits -> isnodata elv nodata p = false) ->
+  let st := flood_state nrow ncol elv nodata conn mode pits in
+  fill_depressions nrow ncol elv nodata conn mode pits = (map (filledv elv st) (seq 0 (nrow * ncol)), fd8 st) /\
+  forall j, (j < nrow * ncol)%nat -> doneb st j = true -> isnodata elv nodata j = false ->
+    reach nrow ncol elv conn (pitroot nrow ncol st) st j.
+Proof. exact FloodTree.flood_forest_sec. Qed.
+Print Assumptions flood_forest.
+
+(* the code stored for a cell reached by offset o decodes (regenerated drdc) to the step back to its parent *)
+Theorem us_points_back : forall o, In o offs8 -> d8_drdc (table_at d8_us (fst o) (snd o)) = (- fst o, - snd o).
+Proof. exact FloodTree.us_points_back. Qed.
+Print Assumptions us_points_back.
+
+(* the queue model: extract_min returns an element no other element is smaller than, and the rest *)
+Theorem extract_min_spec : forall q m rest, extract_min q = Some (m, rest) ->
+  (forall x, In x q <-> x = m \/ In x rest) /\ (forall x, In x rest -> key_lt x m = false).
+Proof. exact FloodTree.extract_min_spec. Qed.
+Print Assumptions extract_min_spec.
+
 (* non-vacuity / smoke: a 3x3 bowl with a rim of 5 and a centre of 1 is filled to 5 and drains to a rim cell *)
 Example flood_example :
   fill_depressions 3 3 [5;5;5; 5;1;5; 5;5;5] (-9999) 8 0 [] = ([5;5;5; 5;5;5; 5;5;5], [0;16;8; 64;32;16; 128;64;32]).
+Proof. vm_compute. reflexivity. Qed.
+
+(* the premises of flood_forest are met: on that bowl every cell is finished and valid *)
+Example flood_forest_applies :
+  forallb (fun j => doneb (flood_state 3 3 [5;5;5; 5;1;5; 5;5;5] (-9999) 8 0 []) j
+                    && negb (isnodata [5;5;5; 5;1;5; 5;5;5] (-9999) j)) (seq 0 9) = true.
 Proof. vm_compute. reflexivity. Qed.
